@@ -343,6 +343,48 @@ func c10R4(r *Report) {
 		})
 	}
 	r.Sentinel("R4.append", nApp, 1)
+	// (a') the converse: once the request event has been handed to the loop and the torrent is alive, Request reports
+	// it registered — whatever the loop answered. (The loop registers the priority even when the piece has meanwhile
+	// been verified and there is nothing to wait for; a reader told "not registered" never withdraws it.)
+	{
+		evF := p.Field("tor", "Torrent", "Event")
+		nSel := 0
+		allInstrs(treq, func(in ssa.Instruction) {
+			sel, ok := in.(*ssa.Select)
+			if !ok {
+				return
+			}
+			for k, st := range sel.States {
+				if st.Dir != types.SendOnly || chanSourceOf(st.Chan).Field != evF {
+					continue
+				}
+				blk := selectCaseBlock(sel, k)
+				if blk == nil {
+					r.Undecided("R4", "Torrent.Request/registered-once-queued", sel.Pos(), "the block of the send case cannot be identified")
+					continue
+				}
+				nSel++
+				bad := token.NoPos
+				nRet := 0
+				for _, ret := range returnsOf(treq) {
+					if !blk.Dominates(ret.Block()) {
+						continue
+					}
+					res := retResults(ret)
+					if len(res) != 3 || !isNilConst(res[2]) {
+						continue // a failure return
+					}
+					nRet++
+					if b, isb := constBool(res[0]); !isb || !b {
+						bad = ret.Pos()
+					}
+				}
+				r.Check(bad == token.NoPos && nRet > 0, "R4", "Torrent.Request/registered-once-queued", sel.Pos(), "every successful return after the request was queued reports it registered",
+					"after its event was queued Torrent.Request can return success with registered != true ("+p.pos(bad)+"): the loop has recorded the priority, the reader is told it has not, and never withdraws it — the piece stays requested for ever")
+			}
+		})
+		r.Sentinel("R4.request-select", nSel, 1)
+	}
 	if rebuild == nil {
 		r.Fail("R4", "Reader.request/rebuild", req.Pos(), "Reader.request no longer rebuilds its list of requested pieces")
 		return
